@@ -319,6 +319,47 @@ def native_functional(seed, tier, only=None):
     return runs, bad
 
 
+def native_interfaces(seed):
+    """object-oriented call forms against each other on one configuration with interleaved source classes; returns messages"""
+    import warnings
+
+    import magpylib as magpy
+
+    warnings.simplefilter("ignore")
+    rng = np.random.default_rng(seed)
+
+    def mk():
+        return [magpy.magnet.Cuboid(dimension=(1, 2, 3), polarization=(.1, .2, .3), position=(0, 0, 0)),
+                magpy.magnet.Sphere(diameter=1, polarization=(.3, 0, .1), position=(3, 0, 0)),
+                magpy.magnet.Cuboid(dimension=(2, 1, 1), polarization=(0, .5, .3), position=(0, 3, 0)),
+                magpy.current.Polyline(vertices=[(0, 0, 0), (1, 0, 1), (2, 1, 1)], current=1.5, position=(0, 0, 3)),
+                magpy.magnet.Sphere(diameter=2, polarization=(0, .2, .1), position=(-3, 0, 0)),
+                magpy.current.Polyline(vertices=[(0, 0, 0), (0, 1, 1), (1, 1, 2)], current=-0.7, position=(0, -3, 0))]
+
+    bad = []
+    srcs = mk()
+    sens = magpy.Sensor(pixel=rng.normal(size=(2, 3)) * 0.2, position=(5, 5, 5))
+    obs_g = sens.pixel + sens.position
+    for X in "BHJM":
+        top = getattr(magpy, "get" + X)
+        ref = np.array([getattr(s, "get" + X)(sens) for s in srcs])
+        forms = {
+            f"get{X}(list, sens)": top(srcs, sens),
+            f"get{X}(list, positions)": top(srcs, obs_g),
+            f"sens.get{X}(*list)": getattr(sens, "get" + X)(*srcs),
+        }
+        for nm, val in forms.items():
+            if val.shape != ref.shape or not np.allclose(val, ref, rtol=1e-10, atol=1e-18):
+                bad.append(f"{nm} differs from [src.get{X}(sens) for src in list] (interleaved classes Cuboid, Sphere, Cuboid, Polyline, Sphere, Polyline)")
+        srcs2 = mk()
+        col = magpy.Collection(*srcs2)
+        if not np.allclose(getattr(col, "get" + X)(sens), ref.sum(axis=0), rtol=1e-9, atol=1e-16):
+            bad.append(f"Collection(list).get{X}(sens) differs from the sum of src.get{X}(sens)")
+        if not np.allclose(top(srcs, sens, sumup=True), ref.sum(axis=0), rtol=1e-9, atol=1e-16):
+            bad.append(f"get{X}(list, sens, sumup=True) differs from the sum of src.get{X}(sens)")
+    return bad
+
+
 def native_dataframe(seed):
     import magpylib as magpy
 
@@ -365,6 +406,9 @@ def main(tier, seed):
     nd, bad_df = native_dataframe(seed)
     rep.standin("dataframe rows == ndarray in source/path/sensor/pixel order", "2 sources x 2 path steps x 2 sensors x 2 pixels, B and H", max(nd, 1), max(nd, 2),
                 "one structure", [dict(sources=2, sensors=2)], failures=len(bad_df))
+    bad_if = native_interfaces(seed)
+    rep.standin("object-oriented call forms agree (top-level, source method, sensor method, collection, sumup) on interleaved source classes", "6 sources, 1 sensor, B/H/J/M",
+                20, 5, "one configuration, five call forms, four fields", [dict(order="Cuboid,Sphere,Cuboid,Polyline,Sphere,Polyline")], failures=len(bad_if), exhaustive=True)
     for f in fails:
         cls = f.get("cls")
         hit = [b for b in bad if cls and f"'{cls}'" in b]
@@ -373,6 +417,8 @@ def main(tier, seed):
         else:
             rep.violation(f["name"], {"why": f["why"], "solver_output": f["why"]}, found_input=False)
     if not fails:
+        for b in bad_if[:2]:
+            rep.violation("standin.call-forms", {"native_result": b, "script": "import sys\nfrom checks.c07 import native_interfaces\nb=native_interfaces(0)\nprint(b[:4])\nsys.exit(1 if b else 0)\n"})
         for b in bad[:3]:
             rep.violation("standin.functional-interface", {"native_result": b, "script": REPLAY.format(seed=seed, only=None)})
         for b in bad_df[:1]:
